@@ -398,9 +398,53 @@ func gen(r *prng.R, f proto.Flags, emit func(proto.Case)) {
 			emit(genCaseX(r.Fork(), fmt.Sprintf("d%d", id), 1, true, true))
 		}
 	}
+	// engine: a quota no flow names (live system-flow increment) next to the named one under a common
+	// ancestor, generous limits, sparse traffic - the ancestor counts a request before the limiter's walk gets there
+	for k := 0; k < nL2/4; k++ {
+		id++
+		emit(genLiveSibling(r.Fork(), fmt.Sprintf("s%d", id)))
+	}
 	if f.Tier == "thorough" {
 		enumerate(emit)
 	}
+}
+
+func genLiveSibling(r *prng.R, id string) proto.Case {
+	big := []int64{3, 5, 9, 20}
+	win := prng.Pick(r, []int64{60 * sec, 3600 * sec, 86400 * sec})
+	qs := []quotaCfg{
+		{id: 0, parent: -1, max: prng.Pick(r, big), win: win, gh: -1, cc: -1, pct: -1},
+		{id: 1, parent: 0, max: prng.Pick(r, big), win: win, gh: -1, cc: -1, pct: -1},
+		{id: 2, parent: 0, max: prng.Pick(r, big), win: prng.Pick(r, []int64{60 * sec, win}), gh: -1, cc: -1, pct: -1},
+	}
+	target := 1
+	if r.Chance(40) { // the named quota one level further down
+		qs = append(qs, quotaCfg{id: 3, parent: 1, max: prng.Pick(r, big), win: 60 * sec, gh: -1, cc: -1, pct: -1})
+		target = 3
+	}
+	if r.Chance(30) {
+		qs[0].gh = 0
+	}
+	var ops []string
+	for _, q := range qs {
+		ops = append(ops, quotaLine(q))
+	}
+	t := int64(1_700_000_000)*sec + int64(r.Intn(1000))*sec + int64(r.Intn(1_000_000_000))
+	start := fmt.Sprintf("start level=2 t=%d lim=%d", t, target)
+	if fv := r.Intn(4); fv > 0 {
+		start += fmt.Sprintf(" fv=%d", fv)
+	}
+	ops = append(ops, start)
+	n := r.Range(2, 8)
+	for i := 1; i <= n; i++ {
+		t += prng.Pick(r, []int64{0, 1, 300_000_000, sec, 7 * sec, 61 * sec})
+		q := target
+		if r.Chance(15) {
+			q = 2 // a request on the URL of the quota no flow names: no limiter, always forwarded
+		}
+		ops = append(ops, fmt.Sprintf("req q=%d r=%d t=%d hdrs=%s", q, i, t, prng.Pick(r, []string{"-", "0:1", "0:1", "0:2"})))
+	}
+	return proto.Case{ID: id, Ops: ops}
 }
 
 // enumerate: every interleaving of 3 requests' (Inc, Allowed) calls on a 2-level chain x every
